@@ -227,7 +227,8 @@ def verb_programs(built):
                                                 l5=pdt.lit(1.0, pdt.Float()), l6=pdt.lit(None, pdt.Int16()), l7=pdt.lit(1, pdt.Float()) + a.i8, l8=pdt.lit(3, pdt.UInt8()) * 2)),
         ("union-stale-left-ref", lambda: a >> pdt.select(a.k, a.i8, a.f32) >> pdt.union(b >> pdt.select(b.k, b.i8, b.f32)) >> pdt.mutate(y=a.i8 + 1, z=a.f32 * 2, w=C.i8 + 1)),
         ("union-int-float-stale-ref", lambda: a >> pdt.select(a.k, a.i64) >> pdt.union(b >> pdt.mutate(i64=b.f32) >> pdt.select(b.k, C.i64))
-         >> pdt.mutate(y=a.i64 + 1, z=C.i64 + 1, c=pdt.when(a.k > 1).then(a.i64).otherwise(0))),
+         >> pdt.mutate(y=a.i64 + 1, z=C.i64 + 1, c=pdt.when(a.k > 1).then(a.i64).otherwise(0), y2=(a.i64 + 1) * 2,
+                       m=pdt.max(a.i64 * 2, 1), c2=pdt.when(a.k > 1).then(a.i64 + 1).otherwise(0), s2=(a.i64 * 2).sum())),
         ("union-const-columns", lambda: a >> pdt.select(a.k) >> pdt.mutate(w=1, f=None, s=1, d=2.5) >> pdt.union(b >> pdt.select(b.k) >> pdt.mutate(w=0.5, f=True, s=2, d=b.i8))
          >> pdt.mutate(w2=C.w * 2, s2=C.s + 1)),
         ("slice-arrange", lambda: a >> pdt.arrange(a.k) >> pdt.slice_head(1)),
